@@ -8,6 +8,7 @@ RULE = ("All (signing, crypto) pairs over the known codes (10 x 8) plus unknown 
         "embedded in ReadRouterInfo, ReadLeaseSet, ReadDestinationFromLeaseSet, ReadLeaseSet2, ReadMetaLeaseSet. Judged: no successful call "
         "returns a prohibited type for its role; every permitted, supported, well-formed combination is accepted. Non-trivial = an identity "
         "was returned (policy predicate evaluated) or a permitted combination was presented.")
+RULE += (' Caller-assembled KeysAndCert literals handed to the wrappers; prohibited types next to experimental-range codes.')
 ASSUME = [common.TRUSTED, "prohibited sets per I2P 0.9.67: Destination: crypto 5-7, signing 4,5,6,8; RouterIdentity: those and signing 11"]
 META = {
     "level": "model_checking",
